@@ -486,6 +486,11 @@ def classify(case, out):
 
 def corpus():
     return [
+        # fixed C11-phantom-entry: a withdrawal for a prefix that was never announced left an empty entry in the store, which ended
+        # the store's walk over the less specific prefixes: the /8 (resp. /32) above it was no longer shown for queries below it
+        "A 0 0 c0000000/8 10 65002 -;W 0 0 c0800000/10;Q 4 c0990000/19 include=lessSpecifics;Q 4 c0800000/10 include=lessSpecifics;Q 4 c0990000/19 include=lessSpecifics,moreSpecifics",
+        "A 0 1 20010db8000000000000000000000000/32 10 65002 -;W 1 1 20010db8800000000000000000000000/34;Q 6 20010db899a000000000000000000000/43 include=lessSpecifics",
+        "A 0 0 c0000000/8 10 65002 -;A 1 0 c0800000/10 11 65001 -;W 0 0 c0a00000/12;W 1 0 c0a00000/12;Q 4 c0a80000/16 include=lessSpecifics;Q 4 c0a00000/12 -",
         # nested /8 /16 /24 + host route, two peers, one withdrawn, one session lost; every section
         "P 0 65001;P 1 65002;A 0 0 0a000000/8 1 65001,65002 4259840100;A 1 0 0a010000/16 2 65002 -;A 0 0 0a010100/24 3 - 4259840100,4259840200;"
         "A 1 0 0a010100/24 4 65001,s -;A 1 0 0a010101/32 5 65002 4294967041;Q 4 0a010000/16 include=lessSpecifics,moreSpecifics;"
